@@ -89,6 +89,8 @@ def expr_tokens(e, rng=None):
         return [Tok(num_forms(e, rng))]
     if t == "pi":
         return [Tok("pi")]
+    if t == "val":
+        return val_literal_tokens(e["v"])
     if t == "var":
         return [Tok(e["x"])]
     if t == "reg":
@@ -126,6 +128,36 @@ def expr_tokens(e, rng=None):
     if t == "bool":
         return [Tok("True" if e["b"] else "False")]
     raise ValueError("expr " + t)
+
+
+def val_literal_tokens(v):
+    """a literal denoting exactly the specification value v (used for scripts the spec derives: inlined, serialised)"""
+    from . import values
+    k = v["k"]
+    if k == "str":
+        return [Tok('"%s"' % v["s"])]
+    if k == "bool":
+        return [Tok("True" if v["b"] else "False")]
+    if v.get("x"):
+        re_, im = Fraction(*v["re"]), Fraction(*v["im"])
+    else:
+        x, _ = values.eval_term(v["term"])
+        x = complex(x)
+        re_, im = x.real, x.imag
+
+    def spell(q):
+        q = abs(q)
+        if isinstance(q, Fraction):
+            if k == "int":
+                return str(int(q))
+            try:
+                return dec(q)
+            except ValueError:
+                return repr(float(q))
+        return repr(float(q))
+    if k == "complex":
+        return [Tok(("-" if re_ < 0 else "") + spell(re_) + ("-" if im < 0 else "+") + spell(im) + "j")]   # one COMPLEX token
+    return ([Tok("-"), Tok(spell(re_), True)] if re_ < 0 else [Tok(spell(re_))])
 
 
 def glue_first(toks):
